@@ -222,6 +222,22 @@ class FilterSuite(Suite):
                 op["map"] = mp
                 ops.append(op)
                 continue
+            if deep3 and rng.random() < 0.06:
+                # both lists at work on one chain A/D/x: a negation chain in one list (A, !A/D, A/D/x) and a pattern in the other list
+                # that matches one element of the chain itself and none of its ancestors (literal, */b, **/b, class)
+                cs = rng.choice(deep3).split(b"/")
+                esc = lambda c: b"".join(b"\\" + bytes([x]) if x in b"*?[]\\" else bytes([x]) for x in c)
+                ch = [b"/".join(esc(c) for c in cs[:i + 1]) for i in range(len(cs))]
+                k = rng.randrange(len(ch) - 1)
+                chain = [ch[k], b"!" + ch[k + 1]] + ([ch[k + 2]] if k + 2 < len(ch) else [ch[k + 1] + b"/*"])
+                j = rng.randrange(k, min(k + 2, len(ch) - 1) + 1)
+                tgt = rng.choice([ch[j], b"*/" * j + esc(cs[j]), b"**/" + esc(cs[j]), ch[j] + b"/**"])
+                if rng.random() < 0.7:
+                    op["include"], op["exclude"] = [hx(x) for x in chain], [hx(tgt)]
+                else:
+                    op["exclude"], op["include"] = [hx(x) for x in chain], [hx(tgt)] + ([hx(ch[0])] if rng.random() < 0.5 else [])
+                ops.append(op)
+                continue
             r = rng.random()
             pl = (lambda neg_p: nested_list(rng, paths)) if rng.random() < 0.25 else (lambda neg_p: pattern_list(rng, paths, neg_p))
             if r < 0.4:
